@@ -240,12 +240,22 @@ func resStr(rs []s2.EdgeQueryResult) string {
 	return sb.String()
 }
 
-func edgeQuery(q *s2.EdgeQuery, o op, what string, tgt []s2.Point) string {
+// tcache holds the ShapeIndex target objects of one history: the query under test reuses them from call
+// to call (a target is part of the state a caller may keep), the reference always builds fresh ones.
+type tcache struct {
+	min *s2.MinDistanceToShapeIndexTarget
+	max *s2.MaxDistanceToShapeIndexTarget
+}
+
+func edgeQuery(q *s2.EdgeQuery, o op, what string, tgt []s2.Point, tc *tcache) string {
 	e := s2.Edge{V0: o.p, V1: o.q}
 	var tidx *s2.ShapeIndex
 	if o.tk == 3 {
 		tidx = s2.NewShapeIndex()
 		tidx.Add(s2.LaxPolylineFromPoints(append([]s2.Point(nil), tgt...)))
+		for k := 0; k+1 < len(tgt); k++ { // a few more shapes, so that the target's own search has something to get wrong
+			tidx.Add(s2.LaxPolylineFromPoints([]s2.Point{tgt[k+1], tgt[k]}))
+		}
 	}
 	call := func(find func() []s2.EdgeQueryResult, dist func() s1.ChordAngle, less func() bool, cons func() bool) string {
 		switch what {
@@ -267,7 +277,15 @@ func edgeQuery(q *s2.EdgeQuery, o op, what string, tgt []s2.Point) string {
 			t := func() *s2.MaxDistanceToEdgeTarget { return s2.NewMaxDistanceToEdgeTarget(e) }
 			return call(func() []s2.EdgeQueryResult { return q.FindEdges(t()) }, func() s1.ChordAngle { return q.Distance(t()) }, func() bool { return q.IsDistanceGreater(t(), o.lim) }, func() bool { return q.IsConservativeDistanceGreaterOrEqual(t(), o.lim) })
 		case 3:
-			t := func() *s2.MaxDistanceToShapeIndexTarget { return s2.NewMaxDistanceToShapeIndexTarget(tidx) }
+			t := func() *s2.MaxDistanceToShapeIndexTarget {
+				if tc == nil {
+					return s2.NewMaxDistanceToShapeIndexTarget(tidx)
+				}
+				if tc.max == nil {
+					tc.max = s2.NewMaxDistanceToShapeIndexTarget(tidx)
+				}
+				return tc.max
+			}
 			return call(func() []s2.EdgeQueryResult { return q.FindEdges(t()) }, func() s1.ChordAngle { return q.Distance(t()) }, func() bool { return q.IsDistanceGreater(t(), o.lim) }, func() bool { return q.IsConservativeDistanceGreaterOrEqual(t(), o.lim) })
 		}
 		t := func() *s2.MaxDistanceToCellTarget { return s2.NewMaxDistanceToCellTarget(o.cell) }
@@ -281,7 +299,15 @@ func edgeQuery(q *s2.EdgeQuery, o op, what string, tgt []s2.Point) string {
 		t := func() *s2.MinDistanceToEdgeTarget { return s2.NewMinDistanceToEdgeTarget(e) }
 		return call(func() []s2.EdgeQueryResult { return q.FindEdges(t()) }, func() s1.ChordAngle { return q.Distance(t()) }, func() bool { return q.IsDistanceLess(t(), o.lim) }, func() bool { return q.IsConservativeDistanceLessOrEqual(t(), o.lim) })
 	case 3:
-		t := func() *s2.MinDistanceToShapeIndexTarget { return s2.NewMinDistanceToShapeIndexTarget(tidx) }
+		t := func() *s2.MinDistanceToShapeIndexTarget {
+			if tc == nil {
+				return s2.NewMinDistanceToShapeIndexTarget(tidx)
+			}
+			if tc.min == nil {
+				tc.min = s2.NewMinDistanceToShapeIndexTarget(tidx)
+			}
+			return tc.min
+		}
 		return call(func() []s2.EdgeQueryResult { return q.FindEdges(t()) }, func() s1.ChordAngle { return q.Distance(t()) }, func() bool { return q.IsDistanceLess(t(), o.lim) }, func() bool { return q.IsConservativeDistanceLessOrEqual(t(), o.lim) })
 	}
 	t := func() *s2.MinDistanceToCellTarget { return s2.NewMinDistanceToCellTarget(o.cell) }
@@ -313,6 +339,7 @@ func oneHistory(c *mon.Case) {
 	var cpq *s2.ContainsPointQuery
 	var ceq *s2.CrossingEdgeQuery
 	eqs := map[bool]*s2.EdgeQuery{}
+	targets := &tcache{}
 	built := false
 	addedSinceBuild := false
 	thresholdBeforeFind := map[bool]bool{}
@@ -397,8 +424,8 @@ func oneHistory(c *mon.Case) {
 			built, addedSinceBuild = true, false
 			f, _ := fresh()
 			fq := pl.newEQ(f, o.far, true)
-			got := edgeQuery(q, o, o.kind, pl.tgt)
-			want := edgeQuery(fq, o, o.kind, pl.tgt)
+			got := edgeQuery(q, o, o.kind, pl.tgt, targets)
+			want := edgeQuery(fq, o, o.kind, pl.tgt, nil)
 			if o.tk == 3 {
 				c.Count("ops.index_target", 1)
 			}
